@@ -55,7 +55,7 @@ func main() {
 	runner.Main(runner.Config{
 		ID:    "C01",
 		Level: "model_checking",
-		Rule: "bounded exhaustive enumeration of ordered build pairs: F1 all builds of <=2 files whose contents are strings of <=2 symbols over a 64KiB-block alphabet plus a tail in {none,1,B-1,B-1-prefix-of-A} (isomorphic pairs under A<->B dropped); F2 all small shape pairs (absent/empty/tiny files, symlink, empty dir) crossed with every registered compression setting; F3 enumerated limit family (runs around 4MiB/8MiB, shared blocks, aligned prefixes/suffixes, zero blocks). Each pair: real WritePatch -> patcher+fresh bowl -> independent Lstat tree comparison. Non-trivial = decoded patch has a series with both BLOCK_RANGE and DATA, or a whole-file range op.",
+		Rule: "bounded exhaustive enumeration of ordered build pairs: F1 all builds of <=2 files whose contents are strings of <=2 symbols over a 64KiB-block alphabet plus a tail in {none,1,B-1,B-1-prefix-of-A} (isomorphic pairs under A<->B dropped); F2 all small shape pairs (absent/empty/tiny files, symlink, empty dir) crossed with every registered compression setting; F3 enumerated limit family (runs around 4MiB/8MiB, shared blocks, aligned prefixes/suffixes, zero blocks); F4 every ordered triple of new files from a menu of ways to reuse two old files (state carried from file to file: continuing ranges, whole-file copies in between, unaligned reuse). Each pair: real WritePatch -> patcher+fresh bowl -> independent Lstat tree comparison. Non-trivial = decoded patch has a series with both BLOCK_RANGE and DATA, or a whole-file range op.",
 		Assumptions: []string{
 			"block contents are seeded pseudo-random (VERIF_SEED); byte values outside the block alphabet are not enumerated",
 			"file modes are not compared",
@@ -213,6 +213,38 @@ func body(w *runner.W) {
 			}
 		}
 		f1c.Done()
+	}
+
+	// ---------------- F4: reader state carried across files ----------------
+	// The patcher keeps one rsync context and the pool one cached reader across
+	// the files of a patch: every ordered triple of new files from a menu of
+	// ways to reuse two old files (ranges continuing each other, whole-file
+	// copies in between, unaligned reuse, prefixes) is a distinct history.
+	f4 := runner.NewSub(w, "F4-file-sequences", run)
+	if f4.Active() {
+		old := wh.Build{wh.F("x", "A.B.C.D"), wh.F("y", "E.F")}
+		menu := []string{"A.B", "C.D", "E.F", "A.B.C.D", "r9/100.A.B", "C.D.r8/100", "B.C", "E", "", "r7/50.C.D.E"}
+		comps := []wh.Comp{"none", "gzip-1", "brotli-1"}
+		n := 0
+		for _, a := range menu {
+			for _, b := range menu {
+				for _, c := range menu {
+					n++
+					f4.Do(Case{Old: old, New: wh.Build{wh.F("f1", a), wh.F("f2", b), wh.F("f3", c)}, Comp: comps[n%3]})
+				}
+			}
+		}
+		// the same with the old files in the other order (file indices swapped)
+		old2 := wh.Build{wh.F("a", "E.F"), wh.F("x", "A.B.C.D")}
+		for _, a := range menu[:7] {
+			for _, b := range menu[:7] {
+				for _, c := range menu[:7] {
+					n++
+					f4.Do(Case{Old: old2, New: wh.Build{wh.F("f1", a), wh.F("f2", b), wh.F("f3", c)}, Comp: "none"})
+				}
+			}
+		}
+		f4.Done()
 	}
 
 	// ---------------- F3: limits ----------------
